@@ -44,6 +44,7 @@ FromSnap(s) ==
 
 NoTree == [root |-> E, nd |-> <<>>, free |-> <<>>, ucap |-> 0]
 NOEXP == -5
+MinTime == (-2147483647 - 1)      \* no time has been supplied yet (new instance, or after clear): any time may follow
 
 \* ---- predicates on the bound snapshot -------------------------------------------------------
 GrowthOK(TT, pk, c0) == Len(TT.nd) <= 4 * (pk + 1) + Max(c0, 8)
@@ -71,7 +72,7 @@ Outcome == Ev.out
 Bind == IF Has("snap") THEN FromSnap(Ev.snap) ELSE T
 
 StepReset ==
-  /\ ents' = {} /\ now' = 0 /\ peak' = 0 /\ cap0' = Ev.cap /\ stale' = FALSE /\ gaps' = FALSE /\ every' = (IF Has("se") THEN Ev.se ELSE 1) /\ rpeak' = 0
+  /\ ents' = {} /\ now' = MinTime /\ peak' = 0 /\ cap0' = Ev.cap /\ stale' = FALSE /\ gaps' = FALSE /\ every' = (IF Has("se") THEN Ev.se ELSE 1) /\ rpeak' = 0
   /\ hasSnap' = Has("snap")
   /\ T' = IF Has("snap") THEN FromSnap(Ev.snap) ELSE NoTree
   /\ (Has("snap") => Structure(T', 0, Ev.cap) /\ V("CLEARED", RangeOK(T') /\ Phys(T') = {}, "a new tree stores entries"))
@@ -119,8 +120,8 @@ OpOk ==
          /\ V("EMPTY", R!IsEmptyOK(Ev.res = 1), <<"is_empty", Ev.res, "with live entries", R!LiveAt(ents, now)>>)
          /\ After(now, ents)
     [] Ev.op = "clear" ->
-         /\ ents' = {} /\ now' = 0
-         /\ After(0, {})
+         /\ ents' = {} /\ now' = MinTime
+         /\ After(MinTime, {})
          /\ (hasSnap /\ Has("snap") => /\ V("CLEARED", RangeOK(T') /\ Phys(T') = {}, "entries stored after clear")
                         /\ V("POOLCLR", Len(T'.free) = Len(T'.nd) - 1, "clear did not return every slot to the free list"))
     [] Ev.op = "export" ->
@@ -190,7 +191,7 @@ Step ==
        [] Ev.ev = "op"    -> StepOp
        [] OTHER -> UNCHANGED <<ents, now, T, hasSnap, peak, cap0, stale, gaps, every, rpeak>> /\ Breach(<<"unknown event", Ev.ev>>)
 
-Init == l = 1 /\ ents = {} /\ now = 0 /\ T = NoTree /\ hasSnap = FALSE /\ peak = 0 /\ cap0 = 0 /\ stale = FALSE /\ gaps = FALSE /\ every = 1 /\ rpeak = 0
+Init == l = 1 /\ ents = {} /\ now = MinTime /\ T = NoTree /\ hasSnap = FALSE /\ peak = 0 /\ cap0 = 0 /\ stale = FALSE /\ gaps = FALSE /\ every = 1 /\ rpeak = 0
 
 Spec == Init /\ [][Step]_<<l, ents, now, T, hasSnap, peak, cap0, stale, gaps, every, rpeak>>
 
